@@ -114,6 +114,41 @@ Qed.
 Theorem validate_other gs tags : validate_op gs (OOther tags) = false.
 Proof. simpl. apply andb_false_r. Qed.
 
+(* ---------- repetitions, zero repetitions and nesting of CircuitOperations ---------- *)
+Lemma validate_app gs a b : validate gs (a ++ b) = validate gs a && validate gs b.
+Proof. unfold validate. apply forallb_app. Qed.
+
+(* validating one iteration of the MAPPED body decides every positive number of repetitions *)
+Theorem validate_repeat gs n b : validate gs (repeat_ops (S n) b) = validate gs b.
+Proof.
+  induction n as [|n IH].
+  - simpl. rewrite app_nil_r. reflexivity.
+  - change (repeat_ops (S (S n)) b) with (b ++ repeat_ops (S n) b). rewrite validate_app, IH. apply andb_diag.
+Qed.
+
+Theorem validate_circuit_op_repeat gs tags n b :
+  validate_op gs (OCircuit tags (repeat_ops (S n) b)) = validate_op gs (OCircuit tags b).
+Proof.
+  cbn [validate_op op_tags]. f_equal. f_equal. exact (validate_repeat gs n b).
+Qed.
+
+(* zero repetitions: the CircuitOperation stands for no operation; only the unroll flag and its own tags decide *)
+Theorem validate_circuit_op_zero gs tags b :
+  validate_op gs (OCircuit tags (repeat_ops 0 b)) = disjoint (gs_banned gs) tags && gs_unroll gs.
+Proof. cbn [validate_op op_tags repeat_ops forallb]. rewrite andb_true_r. reflexivity. Qed.
+
+Lemma disjoint_nil_r a : disjoint a [] = true.
+Proof. unfold disjoint. induction a as [|x a IH]; simpl in *; [reflexivity|exact IH]. Qed.
+
+(* an untagged inner CircuitOperation may be spliced into the outer one (mapped_circuit(deep=True) does so) *)
+Theorem validate_circuit_op_splice gs tags pre inner post :
+  validate_op gs (OCircuit tags (pre ++ OCircuit [] inner :: post)) = validate_op gs (OCircuit tags (pre ++ inner ++ post)).
+Proof.
+  cbn [validate_op op_tags]. rewrite !forallb_app. cbn [forallb validate_op op_tags]. rewrite disjoint_nil_r.
+  destruct (gs_unroll gs); cbn [andb]; [|rewrite !andb_false_r; reflexivity].
+  reflexivity.
+Qed.
+
 (* ---------- devices ---------- *)
 Lemma all_pairs_ok_spec ps qs : all_pairs_ok ps qs = true <->
   (forall a b, In a qs -> In b qs -> a <> b -> pair_mem ps a b = true).
